@@ -22,7 +22,7 @@ pub mod glue;
 #[cfg(kani)]
 mod h {
     use crate::basic_names_h::{any_name, as_str};
-    use crate::glue::{basic3, small2};
+    use crate::glue::{basic3, names1, small2};
     use crate::names::nm::sv as nm;
     use support::doc::{boolean, num, Msg, NameSc, Obj, Pair, TopNull, TopStr, EMPTY0};
     use support::stubs::{bt_disabled, fmt_stub, push_str_stub};
@@ -56,6 +56,11 @@ mod h {
     glue_harness!(s_exec_4_x, 4, small2::exec, |s, v| Msg { name: s, body: Obj { keys: ["x"], vals: [num(v[0])] } });
     glue_harness!(s_exec_4_a, 4, small2::exec, |s, v| Msg { name: s, body: Obj { keys: ["a"], vals: [num(v[0])] } });
     glue_harness!(s_query_4, 4, small2::query, |s, v| Msg { name: s, body: EMPTY0 });
+    // contract without interfaces (1 part), unusual names: x1 / k9 (2 bytes), lead / a1_b2 ...
+    glue_harness!(n_exec_2_empty, 2, names1::exec, |s, v| Msg { name: s, body: EMPTY0 });
+    glue_harness!(n_exec_4_empty, 4, names1::exec, |s, v| Msg { name: s, body: EMPTY0 });
+    glue_harness!(n_exec_5_x, 5, names1::exec, |s, v| Msg { name: s, body: Obj { keys: ["x"], vals: [num(v[0])] } });
+    glue_harness!(n_query_2_empty, 2, names1::query, |s, v| Msg { name: s, body: EMPTY0 });
     // basic corpus (3 parts)
     glue_harness!(g_exec_4_empty, 4, basic3::exec, |s, v| Msg { name: s, body: EMPTY0 });
     glue_harness!(g_exec_4_n, 4, basic3::exec, |s, v| Msg { name: s, body: Obj { keys: ["n"], vals: [num(v[0])] } });
